@@ -14,7 +14,13 @@
 (* strings and replays the sequences against the real proxy binary.                     *)
 EXTENDS Naturals, Sequences, FiniteSets, TLC, Json
 
-CONSTANTS ClientClasses, BackendClasses, MaxLen
+CONSTANTS ClientClasses, BackendClasses, MaxLen,
+          LenFields       \* the length and count fields of the request grammar, as "<OPCODE>_<field>"
+
+\* one class per length / count field of a request body: a well-formed frame of that opcode whose field carries a
+\* boundary value (null / not-set markers, the extremes of the integer type, values whose sum with the read position
+\* overflows, one more and exactly as many bytes as remain)
+FieldClasses == {"fl_" \o f : f \in LenFields}
 
 VARIABLES alive, seq
 vars == <<alive, seq>>
@@ -27,16 +33,18 @@ Allowed(c) ==
       [] c \in {"compressed_flag_no_codec", "bad_compressed_block"} -> {"error", "closed"}
       [] c \in {"bad_string_len", "bad_map_len", "bad_batch_count", "empty_execute_id", "bad_consistency"} -> {"error", "closed", "answered"}
       [] c \in {"hostile_use", "hostile_prepare_ks", "hostile_query_text", "hostile_register", "hostile_startup", "hostile_auth"} -> {"error", "closed", "answered"}
+      [] c \in FieldClasses -> {"error", "closed", "answered"}
       [] c \in BackendClasses -> {"error", "closed", "answered", "nothing"}
       [] OTHER -> {"error", "closed", "answered", "nothing"}
 
 Init == alive = TRUE /\ seq = <<>>
 Step(c) == /\ Len(seq) < MaxLen /\ alive        \* the specification never lets the process die
            /\ seq' = Append(seq, c) /\ alive' = TRUE
-Next == \E c \in ClientClasses \cup BackendClasses : Step(c)
+Classes == ClientClasses \cup FieldClasses \cup BackendClasses
+Next == \E c \in Classes : Step(c)
 Spec == Init /\ [][Next]_vars
 
 ProcessAlive == alive
-EveryClassHasVerdict == \A c \in ClientClasses \cup BackendClasses : Allowed(c) # {}
+EveryClassHasVerdict == \A c \in Classes : Allowed(c) # {}
 Export == (Len(seq) = MaxLen) => PrintT(<<"SEQ", ToJson([seq |-> seq, allowed |-> [i \in DOMAIN seq |-> Allowed(seq[i])]])>>)
 =============================================================================
